@@ -120,41 +120,88 @@ package keeper
 
 // Aggregation is to be run on a signing whose current attempt is complete and still has its interim
 // data; it touches only that signing's record (plus the owner's callback) and nothing on failure.
-//@ func (k Keeper) AggregatePartialSignatures
+// store invariant: a signing is filed under its own id and its group exists
+//@ spec wfSignings(s Store) Bool = tssParams(s).MaxSigningAttempt < MaxUint64 && (forall id Int :: has(s, types.SigningStoreKey(id)) ==> (signingAt(s, id).ID == id && has(s, types.GroupStoreKey(signingAt(s, id).GroupID)) && signingAt(s, id).CurrentAttempt < MaxUint64))
+//@ spec partialSigsOf(s Store, id Int, n Int) tss.Signatures uninterpreted
+//@ func (k Keeper) GetPartialSignatures
 //@ trusted
+//@ ensures result == partialSigsOf(Store_tss, signingID, attempt)
+//@ func (k Keeper) MustGetCurrentAssignedMembers
+//@ trusted
+//@ requires has(Store_tss, types.SigningStoreKey(signingID)) && has(Store_tss, types.SigningAttemptStoreKey(signingID, signingAt(Store_tss, signingID).CurrentAttempt))
+// C03: the stored group signature is the COMBINATION of the partial signatures of the current attempt, and it is
+// stored - with status SUCCESS - only if it verifies under the signing's group public key for the signing's message;
+// otherwise nothing changes at all. Only this signing's record is written.
+//@ func (k Keeper) AggregatePartialSignatures
 //@ modifies Store_tss, Other, Bank
-//@ requires readySigning(Store_tss, signingID)
+//@ requires readySigning(Store_tss, signingID) && wfSignings(Store_tss)
+//@ ensures  wfSignings(Store_tss)
 //@ ensures  forall q Bz :: q != types.SigningStoreKey(signingID) ==> Store_tss[q] == old(Store_tss)[q]
 //@ ensures  err != nil ==> Store_tss == old(Store_tss) && Other == old(Other) && Bank == old(Bank)
+//@ ensures  err == nil ==> (let sg = old(signingAt(Store_tss, signingID)) in let sig = absfn("tss.CombineSignatures#0", old(partialSigsOf(Store_tss, signingID, signingAt(Store_tss, signingID).CurrentAttempt))) in
+//@        tss.validGroupSig(sg.GroupPubKey, sg.Message, sig)
+//@        && Store_tss[types.SigningStoreKey(signingID)] == enc(with(with(sg, "Signature", sig), "Status", types.SIGNING_STATUS_SUCCESS)))
 //@ ensures  err == nil ==> signingAt(Store_tss, signingID).Status == types.SIGNING_STATUS_SUCCESS
 
 //@ func (k Keeper) HandleExpiredSignings
 //@ trusted
 //@ modifies Store_tss, Other, Bank
 //@ ensures  Store_tss[types.PendingSigningsStoreKey] == old(Store_tss)[types.PendingSigningsStoreKey]
+// expiry handling deletes interim data and (through the owner's timeout callback) may deactivate members; it never
+// touches signing or group records, and every id it returns is an existing signing
+//@ ensures  forall id Int :: Store_tss[types.SigningStoreKey(id)] == old(Store_tss)[types.SigningStoreKey(id)]
+//@ ensures  forall g Int :: Store_tss[types.GroupStoreKey(g)] == old(Store_tss)[types.GroupStoreKey(g)]
+//@ ensures  Store_tss[types.ParamsKey] == old(Store_tss)[types.ParamsKey]
+//@ ensures  forall j :: 0 <= j && j < len(result) ==> has(Store_tss, types.SigningStoreKey(result[j]))
 
 // A new signing round may leave partial writes in its context when it fails, so it must be run in an
 // isolated cache context (one with no other uncommitted writes) that the caller discards on error.
-//@ func (k Keeper) InitiateNewSigningRound
+// member selection + nonce consumption + commitment arithmetic for one attempt (GetRandomMembers and DequeueDE are
+// verified on their own; the curve arithmetic in between is not): only DE queues / DE entries change
+//@ func (k Keeper) AssignMembersForSigning
 //@ trusted
 //@ modifies Store_tss
-//@ requires isolated(ctx)
-//@ ensures  Store_tss[types.PendingSigningsStoreKey] == old(Store_tss)[types.PendingSigningsStoreKey]
+//@ ensures forall q Bz :: !iskey(types.DEStoreKey, q) && !iskey(types.DEQueueStoreKey, q) ==> Store_tss[q] == old(Store_tss)[q]
+//@ spec expirationsOf(s Store) []types.SigningExpiration = len(s[types.SigningExpirationsStoreKey]) == 0 ? zero("[]types.SigningExpiration") : dec(types.SigningExpirations, s[types.SigningExpirationsStoreKey]).SigningExpirations
 
-//@ func (k Keeper) HandleFailedSigning
-//@ trusted
-//@ modifies Store_tss, Other, Bank
+// C10: a new attempt bumps the attempt counter by exactly one and is refused beyond MaxSigningAttempt (so a
+// signing cannot be retried forever); the attempt expires SigningPeriod blocks from now; the signing is (re)set to
+// WAITING and queued for expiry under (id, that attempt); the pending-aggregation list is not touched.
+//@ func (k Keeper) InitiateNewSigningRound
+//@ modifies Store_tss
+//@ requires isolated(ctx)
+//@ requires wfSignings(Store_tss)
 //@ ensures  Store_tss[types.PendingSigningsStoreKey] == old(Store_tss)[types.PendingSigningsStoreKey]
+//@ ensures  wfSignings(Store_tss)
+//@ ensures  forall id Int :: old(has(Store_tss, types.SigningStoreKey(id))) ==> has(Store_tss, types.SigningStoreKey(id))
+//@ ensures  err == nil ==> old(has(Store_tss, types.SigningStoreKey(signingID)))
+//@ ensures  err == nil ==> (let a = old(signingAt(Store_tss, signingID)).CurrentAttempt + 1 in a <= old(tssParams(Store_tss)).MaxSigningAttempt && signingAt(Store_tss, signingID).CurrentAttempt == a && signingAt(Store_tss, signingID).Status == types.SIGNING_STATUS_WAITING)
+//@ ensures  err == nil ==> (let a = old(signingAt(Store_tss, signingID)).CurrentAttempt + 1 in signingAt(Store_tss, signingID).ID == signingID && signingAt(Store_tss, signingID).GroupID == old(signingAt(Store_tss, signingID)).GroupID && signingAt(Store_tss, signingID).Message == old(signingAt(Store_tss, signingID)).Message)
+//@ ensures  err == nil ==> (let a = old(signingAt(Store_tss, signingID)).CurrentAttempt + 1 in has(Store_tss, types.SigningAttemptStoreKey(signingID, a)) && attemptAt(Store_tss, signingID, a).ExpiredHeight == wrapu64(wrapu64(ctx.BlockHeight()) + old(tssParams(Store_tss)).SigningPeriod) && attemptAt(Store_tss, signingID, a).Attempt == a && attemptAt(Store_tss, signingID, a).SigningID == signingID)
+//@ ensures  err == nil ==> (let a = old(signingAt(Store_tss, signingID)).CurrentAttempt + 1 in (let ne = dec(types.SigningExpirations, Store_tss[types.SigningExpirationsStoreKey]).SigningExpirations in len(ne) == len(old(expirationsOf(Store_tss))) + 1 && ne[len(ne) - 1] == types.SigningExpiration{signingID, a}))
+//@ loop 0: invariant Store_tss == Store_tss
+
+// C10: a signing that cannot be retried ends FALLEN (terminal), its owner module is told once; the
+// pending-aggregation list is not touched
+//@ func (k Keeper) HandleFailedSigning
+//@ modifies Store_tss, Other, Bank
+//@ requires wfSignings(Store_tss) && has(Store_tss, types.SigningStoreKey(signingID))
+//@ ensures  wfSignings(Store_tss) && has(Store_tss, types.SigningStoreKey(signingID))
+//@ ensures  Store_tss[types.PendingSigningsStoreKey] == old(Store_tss)[types.PendingSigningsStoreKey]
+//@ ensures  signingAt(Store_tss, signingID).Status == types.SIGNING_STATUS_FALLEN
+//@ ensures  forall q Bz :: q != types.SigningStoreKey(signingID) ==> Store_tss[q] == old(Store_tss)[q]
 
 // End block: every signing in the pending list is aggregated while its interim data is still present
 // (i.e. before expiry handling), the list is emptied, and each retry runs in its own isolated cache context.
 //@ func (k Keeper) HandleSigningEndBlock
 //@ modifies Store_tss, Other, Bank
-//@ requires wfPending(Store_tss)
+//@ requires wfPending(Store_tss) && wfSignings(Store_tss)
 //@ ensures  len(pendingSids(Store_tss)) == 0
 //@ loop 0: invariant forall j :: #i <= j && j < len(sids) ==> readySigning(Store_tss, sids[j])
 //@ loop 0: invariant forall a, b :: 0 <= a && a < b && b < len(sids) ==> sids[a] != sids[b]
+//@ loop 0: invariant wfSignings(Store_tss) && (forall j :: 0 <= j && j < len(retrySigningIDs) ==> has(Store_tss, types.SigningStoreKey(retrySigningIDs[j])))
 //@ loop 1: invariant len(pendingSids(Store_tss)) == 0
+//@ loop 1: invariant wfSignings(Store_tss) && (forall j :: 0 <= j && j < len(retrySigningIDs) ==> has(Store_tss, types.SigningStoreKey(retrySigningIDs[j])))
 
 // ---- C09: signers chosen for a signing attempt (partial Fisher-Yates over the available members) ----------
 // available members: active with a queued nonce, pairwise different (body: iterator loop, see C05)
@@ -212,3 +259,28 @@ package keeper
 //@             complaint.KeySym, complaint.Signature,
 //@             r2At(Store_tss, groupID, complaint.Respondent).EncryptedSecretShares[shareSlot(complaint.Respondent, complaint.Complainant)],
 //@             complaint.Complainant, r1At(Store_tss, groupID, complaint.Respondent).CoefficientCommits))
+
+// ---- C03 / C10: submitting a signature share ------------------------------------------------------------
+//@ spec psigHas(s Store, id Int, n Int, m Int) Bool = has(s, types.PartialSignatureStoreKey(id, n, m))
+// A share is accepted only for a WAITING signing, in its CURRENT attempt, from the member it is assigned to (id and
+// address), once per member, with R equal to that member's assigned public nonce, and only if it satisfies the
+// share equation under that member's own key with its Lagrange coefficient among the assigned ids. It is then
+// stored, the attempt's counter goes up by one, and the signing joins the pending-aggregation list exactly when
+// the counter reaches the number of assigned members. A rejected share changes nothing.
+//@ func (k msgServer) SubmitSignature
+//@ modifies Store_tss
+//@ requires req.Signature != nil
+//@ ensures err != nil ==> Store_tss == old(Store_tss)
+//@ ensures err == nil ==> old(has(Store_tss, types.SigningStoreKey(req.SigningID))) && old(signingAt(Store_tss, req.SigningID)).Status == types.SIGNING_STATUS_WAITING
+//@        && old(has(Store_tss, types.SigningAttemptStoreKey(req.SigningID, signingAt(Store_tss, req.SigningID).CurrentAttempt)))
+//@ ensures err == nil ==> (let sg = old(signingAt(Store_tss, req.SigningID)) in let sa = old(attemptAt(Store_tss, req.SigningID, signingAt(Store_tss, req.SigningID).CurrentAttempt)) in
+//@        (exists j :: types.amFirst(sa.AssignedMembers, req.MemberID, j) && sa.AssignedMembers[j].Address == req.Signer
+//@            && ext("bytes.Equal", absfn("tss.Signature.R", req.Signature), sa.AssignedMembers[j].PubNonce)
+//@            && tss.validShare(sg.GroupPubNonce, sg.GroupPubKey, sg.Message, absfn("tss.ComputeLagrangeCoefficient#0", req.MemberID, absfn("types.AssignedMembers.MemberIDs", sa.AssignedMembers)), req.Signature, sa.AssignedMembers[j].PubKey))
+//@        && !old(psigHas(Store_tss, req.SigningID, sa.Attempt, req.MemberID)))
+//@ ensures err == nil ==> (let sa = old(attemptAt(Store_tss, req.SigningID, signingAt(Store_tss, req.SigningID).CurrentAttempt)) in
+//@        Store_tss[types.PartialSignatureStoreKey(req.SigningID, sa.Attempt, req.MemberID)] == req.Signature
+//@        && psigCount(Store_tss, req.SigningID, sa.Attempt) == wrapu64(old(psigCount(Store_tss, req.SigningID, sa.Attempt)) + 1)
+//@        && ((psigCount(Store_tss, req.SigningID, sa.Attempt) == len(sa.AssignedMembers)) ==> (let np = dec(types.PendingProcessSignings, Store_tss[types.PendingSigningsStoreKey]).SigningIDs in len(np) == len(old(pendingSids(Store_tss))) + 1 && np[len(np) - 1] == req.SigningID && (forall i :: 0 <= i && i < len(np) - 1 ==> np[i] == old(pendingSids(Store_tss))[i])))
+//@        && ((psigCount(Store_tss, req.SigningID, sa.Attempt) != len(sa.AssignedMembers)) ==> Store_tss[types.PendingSigningsStoreKey] == old(Store_tss)[types.PendingSigningsStoreKey])
+//@        && (forall q Bz :: q != types.PartialSignatureStoreKey(req.SigningID, sa.Attempt, req.MemberID) && q != types.PartialSignatureCountStoreKey(req.SigningID, sa.Attempt) && q != types.PendingSigningsStoreKey ==> Store_tss[q] == old(Store_tss)[q]))
